@@ -529,9 +529,12 @@ def _main(prop, pid, tier, seed, replay, t0):
                 continue
             if not prop.same(c.L, c.S):
                 model_mismatch.append(c)
-        if not prop.same(c.impl, expect):
+        # (a harness consistency assertion that failed is an observation no expected answer equals, whatever the property's
+        #  own comparison looks at)
+        incons = isinstance(c.impl, dict) and c.impl.get("k") == "inconsistent"
+        if incons or not prop.same(c.impl, expect):
             fid = None
-            for f in open_findings:
+            for f in ([] if incons else open_findings):      # (... and no recorded finding explains it)
                 if prop.matches_finding(f, c.payload, c.impl, expect):
                     fid = f["id"]
                     break
